@@ -56,6 +56,41 @@ def peekBits (W n : Nat) (c : Cur) : Out Nat :=
 def skipBits (n : Nat) : P Unit := fun c =>
   if c.bits.length < n then .err .eof else .ok ((), ⟨c.bits.drop n, c.pos + n⟩)
 
+/-! Compiled code only: the end-of-data tests above walk the whole remaining list (`length`); the equal formulations below look at
+the first `n` bits only.  `@[csimp]` makes the compiler use them — each is proved equal to the definition it replaces (kernel-checked;
+this is not `implemented_by`), so the driver runs the model as defined, only faster on long inputs. -/
+
+def peekBitsFast (W n : Nat) (c : Cur) : Out Nat :=
+  if n > W then .err .internal
+  else if n = 0 then .ok 0
+  else
+    let t := c.bits.take n
+    if t.length < n then .err .eof else .ok (ofBits t)
+
+@[csimp] theorem peekBits_eq_fast : @peekBits = @peekBitsFast := by
+  funext W n c
+  unfold peekBits peekBitsFast
+  simp only [List.length_take]
+  by_cases h1 : n > W
+  · simp [h1]
+  · by_cases h2 : n = 0
+    · simp [h1, h2]
+    · simp only [h1, h2, ↓reduceIte]
+      by_cases h3 : c.bits.length < n
+      · rw [if_pos h3, if_pos (by omega)]
+      · rw [if_neg h3, if_neg (by omega)]
+
+def skipBitsFast (n : Nat) : P Unit := fun c =>
+  if (c.bits.take n).length < n then .err .eof else .ok ((), ⟨c.bits.drop n, c.pos + n⟩)
+
+@[csimp] theorem skipBits_eq_fast : @skipBits = @skipBitsFast := by
+  funext n c
+  unfold skipBits skipBitsFast
+  simp only [List.length_take]
+  by_cases h3 : c.bits.length < n
+  · rw [if_pos h3, if_pos (by omega)]
+  · rw [if_neg h3, if_neg (by omega)]
+
 /-- `read_bits::<T>(n)` -/
 def readBits (W n : Nat) : P Nat := fun c =>
   match peekBits W n c with
